@@ -81,11 +81,61 @@ def _fr(x):
     return Fraction(x)
 
 
+def _f(x):
+    return float(Fraction(x))
+
+
 def _close(a, b, tol=TOL):
     a, b = float(a), float(b)
     if a != a or b != b or abs(a) == float("inf") or abs(b) == float("inf"):
         return False
     return abs(a - b) <= tol * max(1.0, abs(a), abs(b))
+
+
+def _exact_logdet(M):
+    """log det of a symmetric positive-definite matrix of Fractions: exact rational elimination
+    (LDL^T pivots), logs of the exact pivots.  None when a pivot is not positive."""
+    n = len(M)
+    a = [row[:] for row in M]
+    acc = 0.0
+    for k in range(n):
+        p = a[k][k]
+        if p <= 0:
+            return None
+        acc += math.log(p.numerator) - math.log(p.denominator)
+        for i in range(k + 1, n):
+            f = a[i][k] / p
+            if f:
+                for j in range(k, n):
+                    a[i][j] -= f * a[k][j]
+    return acc
+
+
+def _factorisation_contracts(FH, H):
+    """the contracts under which C08.c_log_det_via_cholesky / c_log_det_via_lu hold, checked on the
+    factorisations numpy / SuperLU actually return for these matrices.  '' when met."""
+    from scipy.sparse import csc_matrix
+    from scipy.sparse.linalg import splu
+
+    n = FH.shape[0]
+    L = np.linalg.cholesky(FH)
+    sc = max(1.0, float(np.max(np.abs(FH))))
+    if np.any(np.triu(L, 1) != 0) or np.any(np.diag(L) <= 0):
+        return "numpy.linalg.cholesky: factor not lower-triangular with positive diagonal"
+    if np.max(np.abs(L @ L.T - FH)) > TOL * sc:
+        return "numpy.linalg.cholesky: L L^T does not reconstruct the matrix to 1e-9"
+    lu = splu(csc_matrix(H))
+    Lm, Um = lu.L.toarray(), lu.U.toarray()
+    if np.any(np.triu(Lm, 1) != 0) or np.any(np.tril(Um, -1) != 0):
+        return "splu: L / U not triangular"
+    Pr = np.zeros((n, n))
+    Pr[lu.perm_r, np.arange(n)] = 1.0
+    Pc = np.zeros((n, n))
+    Pc[np.arange(n), lu.perm_c] = 1.0
+    sc2 = max(1.0, float(np.max(np.abs(H))))
+    if np.max(np.abs(Pr @ H @ Pc - Lm @ Um)) > TOL * sc2:
+        return "splu: Pr A Pc != L U to 1e-9"
+    return ""
 
 
 def _spd_int(rng, n, lo=-2, hi=2, ridge=1):
@@ -107,7 +157,7 @@ class C08(PropertyCheck):
         "thorough": "every mask with >=1 unmasked pixel for every shape with H*W <= 9, in the masked-native and the slim mode",
     }
     trusted_extra = [
-        "numpy Cholesky / SuperLU log-determinants are parameters of the model; the driver instantiates them with a pivot-product log-det in Float (1e-9 relative agreement checked on every case)",
+        "numpy.linalg.cholesky and scipy splu are parameters of the model under their contracts (L lower-triangular, positive diagonal, L L^T = A; Pr A Pc = L U with triangular L, U): under these C08.c_log_det_via_cholesky / c_log_det_via_lu prove the reported terms equal log det; the contracts are checked on every inversion case on the factorisations actually returned (1e-9) and the reported terms are compared with exact rational LDL^T log-determinants; the driver instantiates the parameters with a Float Cholesky / Doolittle LU",
         "libm log; 2*pi as the double 6.283185307179586",
         "numpy library semantics modelled, not verified: boolean-mask indexing, np.delete, scipy.linalg.block_diag, np.matmul, ufunc out=/where=",
     ]
@@ -571,6 +621,18 @@ class C08(PropertyCheck):
                 if sg1 <= 0 or sg2 <= 0:
                     return True, "matrices not positive definite: outside the property's domain"
                 reg, lcr, lr = float(reg_q), float(ld1), float(ld2)
+                # exact rational log-determinants of the same principal sub-matrices
+                FHq = [[F[keep[a]][keep[b]] + Hr[a][b] for b in range(nk)] for a in range(nk)]
+                e1, e2 = _exact_logdet(FHq), _exact_logdet(Hr)
+                if e1 is not None and e2 is not None:
+                    lcr, lr = e1, e2
+                # the factorisation contracts the Lean theorems assume, on the matrices the
+                # implementation itself handed to numpy / SuperLU
+                why = _factorisation_contracts(
+                    np.array([[_f(v) for v in r] for r in io["curvature_reg_matrix_reduced"]]).reshape(nk, nk),
+                    np.array([[_f(v) for v in r] for r in io["regularization_matrix_reduced"]]).reshape(nk, nk))
+                if why:
+                    return False, "factorisation contract (trusted base) not met: " + why
         for k, e in (("regularization_term", reg), ("log_det_curvature_reg_matrix_term", lcr),
                      ("log_det_regularization_matrix_term", lr)):
             if not _close(Fraction(io[k]), e):
@@ -614,6 +676,8 @@ class C08(PropertyCheck):
              "C08.c_log_likelihood", "C08.c_figure_of_merit"]
         if case.get("inversion") is not None:
             t += ["C08.c_log_evidence", "C08.c_unregularized_inversion_gives_likelihood",
+                  "C08.c_log_det_via_cholesky", "C08.c_log_det_via_lu",
+                  "C08.c_log_evidence_with_determinants",
                   "C08.d_no_regularization_index_list", "C08.d_no_regularization_index_list_sorted",
                   "C08.d_regularization_matrix_unregularized_zero", "C08.d_regularization_term_reduced",
                   "C08.d_reduced_matrices", "C08.d_all_regularized_nothing_removed"]
